@@ -8,6 +8,10 @@
 (***************************************************************************)
 EXTENDS Lifecycle, Json
 
+(* TLC orders record fields by the order in which their names were first seen: the tag
+   field k of JSON values must be met before v (heterogeneous values are told apart by k) *)
+LOCAL InternOrderKV == [k |-> 0, v |-> 0]
+
 CONSTANTS MaxLen, Shape     \* Shape = "all" | "vrv" (validate, reconfigure, validate on one target)
 
 VARIABLES heap, hist, last
